@@ -11,17 +11,17 @@ def _col(cells: List[List[Any]]):
     return np.array([np.nan if c[0] == "na" else c[1] / 2.0 for c in cells], dtype="float64")
 
 
-def _fn(pred: str):
+def _fn(pred: str, X="x", Y="y"):
     import pandas as pd
 
     if pred == "cells_pos":
         return (lambda df: df > 0), False
     if pred == "row_x_le_y":
-        return (lambda df: df["x"] <= df["y"]), False
+        return (lambda df: df[X] <= df[Y]), False
     if pred == "ew_row_x_le_y":
-        return (lambda row: bool(row["x"] <= row["y"])), True
+        return (lambda row: bool(row[X] <= row[Y])), True
     if pred == "sum_x_pos":
-        return (lambda df: bool(df["x"].sum() > 0)), False
+        return (lambda df: bool(df[X].sum() > 0)), False
     raise ValueError(pred)
 
 
@@ -43,8 +43,9 @@ def observe_tablecheck(vec: Dict[str, Any]) -> Dict[str, Any]:
         ixk = vec.get("ix", "unique")
         labels = [10 * ((i + 2) // 2 if ixk in ("dup", "multidup") else i + 1) for i in range(n)]
         index = pd.MultiIndex.from_arrays([labels, [0] * n], names=["p", "q"]) if ixk.startswith("multi") else pd.Index(labels)
-        df = pd.DataFrame({"x": _col(vec["x"]), "y": _col(vec["y"])}, index=index)
-        fn, ew = _fn(vec["pred"])
+        X, Y = {"intcols": (0, 1), "tuplecols": (("k", "x"), ("k", "y"))}.get(ixk, ("x", "y"))
+        df = pd.DataFrame({X: _col(vec["x"]), Y: _col(vec["y"])}, index=index)
+        fn, ew = _fn(vec["pred"], X, Y)
         kw: Dict[str, Any] = {"ignore_na": bool(vec["ina"]), "element_wise": ew}
         if vec["nfc"]:
             kw["n_failure_cases"] = int(vec["nfc"])
@@ -54,7 +55,7 @@ def observe_tablecheck(vec: Dict[str, Any]) -> Dict[str, Any]:
             out["passed"] = bool(r.check_passed)
         except Exception as e:  # noqa: BLE001
             out["direct_error"] = "%s: %s" % (type(e).__name__, str(e)[:120])
-        schema = pa.DataFrameSchema({"x": pa.Column(float, nullable=True), "y": pa.Column(float, nullable=True)}, checks=[check])
+        schema = pa.DataFrameSchema({X: pa.Column(float, nullable=True), Y: pa.Column(float, nullable=True)}, checks=[check])
         for mode, lazy in (("eager", False), ("lazy", True)):
             try:
                 res = schema.validate(df, lazy=lazy)
